@@ -798,7 +798,9 @@ impl<M: Math, T: Transformation<M>> Hamiltonian<M> for TransformedHamiltonian<M,
             crate::verif::json!({"ev": "momentum", "resample": resample_velocity,
                 "micro": self.kinetic_energy_kind == KineticEnergyKind::Microcanonical,
                 "v": crate::verif::bits_vec(&math.box_array(&point.velocity)),
-                "ke": crate::verif::bits(point.kinetic_energy)})
+                "ke": crate::verif::bits(point.kinetic_energy),
+                "e": crate::verif::bits(point.energy()),
+                "e0": crate::verif::bits(point.initial_energy)})
         });
         Ok(())
     }
